@@ -65,6 +65,7 @@ type ServerOpts struct {
 	FreshRecvBuf     bool           // hand out a fresh slice per Recv (default: one reused, scribbled buffer)
 	Validator        func([]byte) error
 	RPCLog           jrpc2.RPCLogger
+	HoldSend         chan struct{} // see vchan.End.HoldSend (server's end)
 }
 
 // ServerRig is a real jrpc2.Server on one end of a vchan pair, a raw scripted
@@ -93,6 +94,7 @@ func NewServerRig(c *vt.Ctx, ctrl *sched.Controller, o ServerOpts) *ServerRig {
 	r.End.PipeLike = o.PipeLike
 	r.End.RejectLF = o.RejectLF
 	r.End.ReuseRecvBuf = !o.FreshRecvBuf
+	r.End.HoldSend = o.HoldSend
 	for _, f := range o.Faults {
 		r.End.AddFault(f)
 	}
